@@ -301,6 +301,13 @@ impl Property for C11 {
                         st.bump("c11.excepted.later_text_chunk");
                         return Ok(Ok(()));
                     }
+                    if is_text && decoder_held_bytes(&b, inv, sc) && cands.iter().any(|&(i, a)| a == l && i > s && i <= s + 3) {
+                        return Ok(Err(Fail::known(
+                            "C11.conservation",
+                            format!("text handler #{inv} failed on the chunk at input offset {s}: bytes {s}..{} held by the decoder are missing from the sink", cands[0].0),
+                            "decoder_held_bytes_lost",
+                        )));
+                    }
                     return Ok(Err(Fail::new(
                         "C11.conservation",
                         format!(
@@ -374,5 +381,5 @@ fn decoder_held_bytes(b: &History, inv: usize, sc: &Scenario) -> bool {
         return false;
     };
     // a write boundary strictly inside a multi-byte UTF-8 character shortly before the chunk
-    sc.cuts.iter().any(|&c| c > 0 && c < sc.doc.len() && c <= loc.0 + 4 && c + 4 >= loc.0 && (sc.doc[c] & 0xC0) == 0x80)
+    sc.cuts.iter().any(|&c| c > 0 && c < sc.doc.len() && c <= loc.0 + 4 && c + 4 >= loc.0 && (sc.doc[c] & 0xC0) == 0x80 && sc.doc[c - 1] >= 0x80)
 }
